@@ -31,6 +31,10 @@ RULE = ("85% particle lists: 1..400 particles (quick mostly <= 80) on the 2^-10 
         "default / duplicate labels (concat of two lists) / permuted / sparse / all equal; scores distinct, tied (15%) or correlated with "
         "position, either score direction, d in (0.25, 24]; exact distance ties inside a group are excluded (d is nudged) except in a 3% "
         "stream that plants a pair at distance exactly d (outside the quantifier: reported only when BOTH readings `<` and `<=` reject). "
+        "10% of the lists lie on the FINE grid 2^-30 (2..40 particles, neighbours at d +- 1..16 grid units and d +- 2^-23, 2^-20, 2^-10, scores that "
+        "differ in their low bits only: positions and scores need up to 50 mantissa bits, so a float32 anywhere on the path changes the result; "
+        "pairs closer to a tie than 2^-40 relative in dist^2 are excluded, see ASSUMPTIONS); 8% hold INTEGER values only and are handed in as an "
+        "int64 DataFrame (all columns, or coordinates + ids), with integer and half-integer radii. "
         "30% of the calls omit every keyword whose value is the documented default (keep_greater=True, metric_id='score', "
         "angles_order='zxz', angles_numbering=0). 15% of the cases make 1-2 further calls in the same process on the SAME caller-owned "
         "DataFrame / ndarrays / CSV path (columns overwritten in place, file rewritten between the calls); every call is judged alike and "
@@ -41,17 +45,33 @@ RULE = ("85% particle lists: 1..400 particles (quick mostly <= 80) on the 2^-10 
         "diameter 0.5..6.5 in quarter steps (integer diameters give exact distance ties, which the closed ball decides), angle list "
         "1..40 rows as ndarray or CSV file, numbering 0/1, order zxz/zzx, 3% angle-map entries beyond the END of the list (entries BELOW "
         "the numbering point to no list row and are outside the quantifier: never generated; the model rejects them). "
+        "Of the non-dense maps 40% carry scores in [0, 1/4) that need all 52 mantissa bits (neighbouring scores and the threshold differ by one "
+        "unit in the last place; sent as integers * 2^-52), 50% carry DECIMAL angles with 0..3 decimals (sent as IEEE bit patterns: the model only "
+        "copies and compares them), the maps are float64 / float32 / int16 / int32 / int64 arrays, the list float64 / float32 / int64, and 30% of "
+        "the boxes with three different side lengths are handed in as MRC or EM file PATHS written without cryocat (file axes section, row, column). "
+        "OUTSIDE the quantifier, never generated: NaN scores and NaN group ids (the statement speaks of an 'equal or better score' and of 'groups': "
+        "NaN is neither ordered nor equal to itself; today a NaN id makes the particle vanish and a NaN score ranks first under keep_greater - "
+        "recorded for C08's K-class, not a finding of C07); maps / lists given as python lists or tuples (cryomap.read and rot_angles_load refuse "
+        "them with ValueError: a documented type refusal, no clause of C07). "
         "non-trivial: list with >= 3 particles of which >= 1 is removed and >= 1 kept / map with >= 2 voxels above threshold of which "
         ">= 1 is suppressed; distinct = distinct case content")
 ASSUMPTIONS = [
-    "numpy float64 arithmetic on the dyadic grids used is exact, so `norm(diff) < d` decides like `dist^2 < d^2` for d > 0 (sqrt is correctly rounded and monotone; squares differ by >= 2^-20)",
+    "numpy float64 arithmetic on the dyadic grid 2^-10 is exact, so `norm(diff) < d` decides like `dist^2 < d^2` for d > 0 (sqrt is correctly rounded and monotone; squares differ by >= 2^-20)",
+    "on the fine grid 2^-30 coordinates (< 2^39 units) and their sums / differences are exact in float64; the three squares, two additions and the square root of np.linalg.norm "
+    "each round with relative error <= 2^-53, so the computed distance is within 2^-51 relative of the true one; generated lists keep |dist^2 - d^2| >= 2^-40 * d^2 for every pair "
+    "of a group (i.e. |dist - d| / d >= 2^-41, a factor 2^10 above the error), hence `norm(diff) < d` decides like the exact integer comparison of the model",
     "scipy.spatial.KDTree.query_ball_point(c, r) = brute-force closed ball dist <= r on integer coordinates (probed each run)",
     "np.argsort / sorted order candidates by score; how equal scores are ordered is irrelevant to the theorems (any non-increasing order) and cases with tied scores are judged by the verified checker only",
     "pandas: boolean-mask selection keeps row order, concat keeps order, read_csv(header=None) parses repr(float) exactly",
+    "mrcfile / emfile store an array given as [section, row, column] = [z, y, x] unchanged (the harness writes map files with them, never with cryocat)",
     "sklearn DBSCAN(min_samples=1) labels every point (no peak is dropped when cluster_size is None)",
     "angle-map entries below `angles_numbering` (e.g. 0 with numbering 1) point to no row of the angle list and are OUTSIDE the quantifier (decision of the integrator, audit C07-1): numpy wraps such an index to the end of the list, the model answers badAngle (theorem peakOf_below_numbering); such maps are never generated and no finding is raised for them",
+    "NaN scores and NaN group ids are OUTSIDE the quantifier (audit 2, item 6): 'equal or better score' presupposes ordered scores and 'group' presupposes ids equal to themselves; never generated, no finding raised",
     "a list holding two particles of one group at distance exactly d is outside the quantifier: it is reported only when the verified checker rejects the result under both readings (`dist < d` and `dist <= d` count as close)",
     "group independence is judged by the verified checker applied to each group's sub-list (theorem spec_iff_groups: the clauses decompose over the groups), not by re-running the implementation per group",
+    "the ORDER of the survivors is not a clause of the statement: the spec verdict is the order-free checker (checkCleanCore_iff); survivors out of row order are a corr finding (groupsInOrder_iff)",
+    "whole-body digests: two consecutive assignments to different fresh locals, neither reading the other's target, are taken to be order-independent (a call used for its value "
+    "is a query unless its name is a known mutator: pop, append, sort, random draws, `inplace=`, ..); type annotations, docstrings and the text of exception / log messages are not part of a body",
 ]
 TRUSTED = ["harness scaling of dyadic values to integers (props/c07.py), comparison of squared distances instead of distances (d > 0)",
            "the direct evaluations of props/c07.py judge(): row identity by subtomo_id + bit comparison, dtype kinds, before/after comparison of caller-owned inputs"]
@@ -64,6 +84,122 @@ def _cmp(node):
     return CMP.get(type(node.ops[0]).__name__, "other")
 
 
+_LOGGERS = ("print", "warnings.warn", "warn", "logging.debug", "logging.info", "logging.warning", "logging.error", "logger.debug",
+            "logger.info", "logger.warning", "logger.error")
+# value-returning calls that change the object they are called on: an assignment holding one is never moved
+_MUTATORS = {"pop", "popitem", "setdefault", "next", "send", "read", "readline", "readlines", "write", "seek", "remove", "append", "extend",
+             "insert", "sort", "reverse", "clear", "update", "add", "discard", "shuffle", "seed", "choice", "rand", "randn", "random", "randint",
+             "permutation", "fit_predict", "fit", "drop_duplicates", "reset_index", "fillna", "drop", "rename", "set_index", "sort_values"}
+
+
+def _strip(fn):
+    """copy of a function without what a harmless edit may change: type annotations (`x: T = v` becomes `x = v`), docstrings and
+    the TEXT of exception / log messages (the exception type and the non-string arguments stay)"""
+    fn = copy.deepcopy(fn)
+
+    def msg(call):
+        if isinstance(call, ast.Call):
+            call.args = [ast.Constant(value="MSG") if isinstance(a, ast.JoinedStr) or (isinstance(a, ast.Constant) and isinstance(a.value, str))
+                         or (isinstance(a, ast.BinOp) and isinstance(a.op, (ast.Add, ast.Mod)) and any(isinstance(x, (ast.JoinedStr,)) or (isinstance(x, ast.Constant) and isinstance(x.value, str)) for x in ast.walk(a)))
+                         else a for a in call.args]
+
+    class T(ast.NodeTransformer):
+        def visit_FunctionDef(self, n):
+            self.generic_visit(n)
+            n.returns = None
+            a = n.args
+            for x in a.posonlyargs + a.args + a.kwonlyargs + ([a.vararg] if a.vararg else []) + ([a.kwarg] if a.kwarg else []):
+                x.annotation = None
+            return n
+
+        def visit_AnnAssign(self, n):
+            self.generic_visit(n)
+            if n.value is None:
+                return None
+            return ast.copy_location(ast.Assign(targets=[n.target], value=n.value), n)
+
+        def visit_Raise(self, n):
+            self.generic_visit(n)
+            msg(n.exc)
+            return n
+
+        def visit_Expr(self, n):
+            self.generic_visit(n)
+            if isinstance(n.value, ast.Call) and ast.unparse(n.value.func).replace(" ", "") in _LOGGERS:
+                msg(n.value)
+            return n
+    fn = T().visit(fn)
+    ast.fix_missing_locations(fn)
+    return fn
+
+
+def _loads(node):
+    return {x.id for x in ast.walk(node) if isinstance(x, ast.Name) and isinstance(x.ctx, (ast.Load, ast.Del))}
+
+
+def _movable(st, params):
+    """an assignment of a value to ONE fresh local name whose right-hand side is a query (no known mutator call, no walrus, no yield)"""
+    if not (isinstance(st, ast.Assign) and len(st.targets) == 1 and isinstance(st.targets[0], ast.Name) and st.targets[0].id not in params):
+        return False
+    for x in ast.walk(st.value):
+        if isinstance(x, (ast.NamedExpr, ast.Yield, ast.YieldFrom, ast.Await)):
+            return False
+        if isinstance(x, ast.Call):
+            f = x.func
+            nm = f.attr if isinstance(f, ast.Attribute) else (f.id if isinstance(f, ast.Name) else "")
+            if nm in _MUTATORS or any(k.arg == "inplace" for k in x.keywords):
+                return False
+            if isinstance(f, ast.Attribute) and "random" in ast.unparse(f):
+                return False
+    return True
+
+
+def _canonical_order(fn):
+    """statement order up to swaps of INDEPENDENT consecutive assignments: inside every run of consecutive movable assignments
+    (see `_movable`) two statements commute when neither reads or binds the other's target; the run is emitted in the unique
+    dependency-respecting order that is smallest by the rename-insensitive text of the right-hand sides.  Anything else
+    (calls for effect, stores into attributes / subscripts, augmented assignments, control flow) keeps its place."""
+    V0 = _View(fn, canonical=False)
+    params = set(V0.params)
+
+    def commute(a, b):
+        ta, tb = a.targets[0].id, b.targets[0].id
+        return ta != tb and ta not in _loads(b.value) and tb not in _loads(a.value)
+
+    def order_run(run):
+        if len(run) < 2:
+            return run
+        keys = [V0.text(st.value) for st in run]
+        n = len(run)
+        preds = [{i for i in range(j) if not commute(run[i], run[j])} for j in range(n)]
+        done, out = set(), []
+        while len(out) < n:
+            ready = [j for j in range(n) if j not in done and preds[j] <= done]
+            j = min(ready, key=lambda k: (keys[k], k))
+            done.add(j)
+            out.append(run[j])
+        return out
+
+    def block(stmts):
+        out, run = [], []
+        for st in stmts:
+            if _movable(st, params):
+                run.append(st)
+                continue
+            out += order_run(run)
+            run = []
+            for fld in ("body", "orelse", "finalbody"):
+                sub = getattr(st, fld, None)
+                if isinstance(sub, list) and sub and isinstance(sub[0], ast.stmt):
+                    setattr(st, fld, block(sub))
+            for h in getattr(st, "handlers", []) or []:
+                h.body = block(h.body)
+            out.append(st)
+        return out + order_run(run)
+    fn.body = block(fn.body)
+    return fn
+
+
 class _View:
     """Rename-insensitive view of one function.  `text(node)` is the source text of an expression in which every
     local name is replaced by what it is bound to (single binding: its defining expression; several bindings:
@@ -74,7 +210,9 @@ class _View:
     gives a different one.  `dump()` is the whole body, statement kinds + expressions, with locals numbered in order of
     first binding (v0, v1, ..) - any added, removed or altered statement changes it."""
 
-    def __init__(self, fn):
+    def __init__(self, fn, canonical=True):
+        if canonical:  # annotations / message texts / docstrings dropped, independent assignments in canonical order
+            fn = _canonical_order(_strip(fn))
         self.fn = fn
         a = fn.args
         self.params = [x.arg for x in a.posonlyargs + a.args + a.kwonlyargs] + ([a.vararg.arg] if a.vararg else []) + ([a.kwarg.arg] if a.kwarg else [])
@@ -179,26 +317,163 @@ class _View:
 
     # ---- whole-body dump
     def dump(self):
-        ren = {nm: f"v{i}" for i, nm in enumerate(self.order) if nm not in self.params}
+        """locals are numbered v0, v1, .. in order of their first BINDING occurrence; a name that is bound but never read is a
+        discard and is written `_` (each `_` of the source is one: renaming a discard, or giving two discards different names,
+        changes nothing); variables of a comprehension / lambda are scoped to it (`_c<k>` / `_a<k>`) and never share a number
+        with a function-level name that happens to be spelt alike"""
+        params = set(self.params)
+        COMP = (ast.ListComp, ast.SetComp, ast.GeneratorExp, ast.DictComp)
+
+        def names_of(t):
+            if isinstance(t, ast.Name):
+                return [t.id]
+            if isinstance(t, (ast.Tuple, ast.List)):
+                return [x for e in t.elts for x in names_of(e)]
+            if isinstance(t, ast.Starred):
+                return names_of(t.value)
+            return []
+
+        order, loaded = [], set()
+
+        class P1(ast.NodeVisitor):  # function-level bindings in order, function-level loads
+            def __init__(self):
+                self.scopes = []
+
+            def local(self, nm):
+                return any(nm in sc for sc in self.scopes)
+
+            def visit_Name(self, n):
+                if self.local(n.id):
+                    return
+                if isinstance(n.ctx, ast.Store):
+                    if n.id not in order:
+                        order.append(n.id)
+                else:
+                    loaded.add(n.id)
+
+            def visit_AugAssign(self, n):
+                if isinstance(n.target, ast.Name) and not self.local(n.target.id):
+                    loaded.add(n.target.id)
+                self.generic_visit(n)
+
+            def visit_ExceptHandler(self, n):
+                if n.name and n.name not in order:
+                    order.append(n.name)
+                self.generic_visit(n)
+
+            def comp(self, n):
+                sc = set()
+                self.scopes.append(sc)
+                for g in n.generators:
+                    self.visit(g.iter)
+                    sc.update(names_of(g.target))
+                    for c in g.ifs:
+                        self.visit(c)
+                for e in ([n.key, n.value] if isinstance(n, ast.DictComp) else [n.elt]):
+                    self.visit(e)
+                self.scopes.pop()
+            visit_ListComp = visit_SetComp = visit_GeneratorExp = visit_DictComp = comp
+
+            def visit_Lambda(self, n):
+                self.scopes.append({x.arg for x in n.args.args + n.args.kwonlyargs + n.args.posonlyargs})
+                self.visit(n.body)
+                self.scopes.pop()
+
+            def visit_FunctionDef(self, n):  # a nested def: its name is a function-level binding, its body a scope of its own
+                if n.name not in order:
+                    order.append(n.name)
+                sc = {x.arg for x in n.args.args + n.args.kwonlyargs + n.args.posonlyargs}
+                sc |= {x.id for x in ast.walk(n) if isinstance(x, ast.Name) and isinstance(x.ctx, ast.Store)}
+                self.scopes.append(sc)
+                for st in n.body:
+                    self.visit(st)
+                self.scopes.pop()
+        p1 = P1()
+        for st in self.fn.body:
+            p1.visit(st)
+        ren, k = {}, 0
+        for nm in order:
+            if nm in params:
+                continue
+            if nm not in loaded:
+                ren[nm] = "_"
+            else:
+                ren[nm] = f"v{k}"
+                k += 1
 
         class R(ast.NodeTransformer):
             def __init__(self):
-                self.lam = {}
+                self.scopes = []
+                self.depth = 0
 
-            def visit_Lambda(self, n):
-                old = dict(self.lam)
-                for i, x in enumerate(n.args.args):
-                    self.lam[x.arg] = f"_a{i}"
-                    x.arg = f"_a{i}"
-                n.body = self.visit(n.body)
-                self.lam = old
-                return n
+            def lookup(self, nm):
+                for sc in reversed(self.scopes):
+                    if nm in sc:
+                        return sc[nm]
+                return ren.get(nm, nm)
 
             def visit_Name(self, n):
-                if n.id in self.lam:
-                    n.id = self.lam[n.id]
-                elif n.id in ren:
-                    n.id = ren[n.id]
+                n.id = self.lookup(n.id)
+                return n
+
+            def visit_ExceptHandler(self, n):
+                if n.name:
+                    n.name = ren.get(n.name, n.name)
+                self.generic_visit(n)
+                return n
+
+            def comp(self, n):
+                used = set()
+                for g in n.generators[1:]:
+                    used |= _loads(g.iter)
+                for g in n.generators:
+                    for c in g.ifs:
+                        used |= _loads(c)
+                for e in ([n.key, n.value] if isinstance(n, ast.DictComp) else [n.elt]):
+                    used |= _loads(e)
+                sc = {}
+                self.scopes.append(sc)
+                self.depth += 1
+                cnt = 0
+                for g in n.generators:
+                    g.iter = self.visit(g.iter)
+                    for nm in names_of(g.target):
+                        if nm not in sc:
+                            sc[nm] = f"_c{self.depth}_{cnt}" if nm in used else "_"
+                            cnt += 1
+                    g.target = self.visit(g.target)
+                    g.ifs = [self.visit(c) for c in g.ifs]
+                if isinstance(n, ast.DictComp):
+                    n.key, n.value = self.visit(n.key), self.visit(n.value)
+                else:
+                    n.elt = self.visit(n.elt)
+                self.depth -= 1
+                self.scopes.pop()
+                return n
+            visit_ListComp = visit_SetComp = visit_GeneratorExp = visit_DictComp = comp
+
+            def visit_Lambda(self, n):
+                sc = {}
+                for i, x in enumerate(n.args.posonlyargs + n.args.args + n.args.kwonlyargs):
+                    sc[x.arg] = f"_a{i}"
+                    x.arg = f"_a{i}"
+                self.scopes.append(sc)
+                n.body = self.visit(n.body)
+                self.scopes.pop()
+                return n
+
+            def visit_FunctionDef(self, n):
+                n.name = ren.get(n.name, n.name)
+                inner = [x.arg for x in n.args.posonlyargs + n.args.args + n.args.kwonlyargs]
+                for x in ast.walk(n):
+                    if isinstance(x, ast.Name) and isinstance(x.ctx, ast.Store) and x.id not in inner:
+                        inner.append(x.id)
+                sc = {nm: f"_f{i}" for i, nm in enumerate(inner)}
+                for x in n.args.posonlyargs + n.args.args + n.args.kwonlyargs:
+                    x.arg = sc[x.arg]
+                self.scopes.append(sc)
+                n.body = [self.visit(st) for st in n.body]
+                self.scopes.pop()
                 return n
         lines = []
 
@@ -239,7 +514,7 @@ class _View:
                         lines.append(f"{pad}Finally")
                         rec(st.finalbody, depth + 1)
                 elif isinstance(st, (ast.FunctionDef, ast.ClassDef)):
-                    lines.append(f"{pad}{head} {st.name}")
+                    lines.append(f"{pad}{head} {st.name}" + (f"({ast.unparse(st.args).replace(' ', '')})" if isinstance(st, ast.FunctionDef) else ""))
                     rec(st.body, depth + 1)
                 else:
                     lines.append(f"{pad}{head} {expr(st)}")
@@ -277,11 +552,21 @@ DOC = dict(dist_cmp="lt", thr="gt", scmp="le", sort=[True, False], srt=True, coo
            peak_defaults=[("object_id", "None"), ("scores_threshold", "None"), ("sigma_threshold", "None"), ("cluster_size", "None"),
                           ("n_particles", "None"), ("output_path", "None"), ("output_type", "'emmotl'"), ("angles_order", "'zxz'"),
                           ("symmetry", "'c1'"), ("angles_numbering", "0"), ("tomo_mask", "None")],
-           load_defaults=[("angles_order", "'zxz'")])
+           load_defaults=[("angles_order", "'zxz'")], read_defaults=[("transpose", "True"), ("data_type", "None")], read_transpose=[2, 1, 0])
+
+
+_M, _G, _T, _I, _C = "cryocat/cryomotl.py", "cryocat/geom.py", "cryocat/tmana.py", "cryocat/ioutils.py", "cryocat/cryomap.py"
+# (name of the Lean constant, file, qualified name) of every function whose whole body is anchored; the last six are the helpers
+# every call runs through (audit 2, item 1): a narrowing / reordering there changes scores and positions unseen by the first six
+_BODIES = [("cleanByDistance", _M, "Motl.clean_by_distance"), ("getMotlSubset", _M, "Motl.get_motl_subset"), ("getCoordinates", _M, "Motl.get_coordinates"),
+           ("pointPairwiseDist", _G, "point_pairwise_dist"), ("scoresExtractParticles", _T, "scores_extract_particles"), ("rotAnglesLoad", _I, "rot_angles_load"),
+           ("cryomapRead", _C, "read"), ("motlInit", _M, "Motl.__init__"), ("checkDfCorrectFormat", _M, "Motl.check_df_correct_format"),
+           ("motlFill", _M, "Motl.fill"), ("getFeature", _M, "Motl.get_feature"), ("createEmptyMotlDf", _M, "Motl.create_empty_motl_df")]
+_BODY_KEYS = [(rel, qual) for _, rel, qual in _BODIES]
 
 
 def translate(src):
-    M, G, T, I = "cryocat/cryomotl.py", "cryocat/geom.py", "cryocat/tmana.py", "cryocat/ioutils.py"
+    M, G, T, I, C = "cryocat/cryomotl.py", "cryocat/geom.py", "cryocat/tmana.py", "cryocat/ioutils.py", "cryocat/cryomap.py"
     n = core.norm_expr
     Missing = core.AnchorMissing
     views = {}
@@ -315,7 +600,7 @@ def translate(src):
     def dist_compare():
         V = CV()
         return first(V, lambda x: isinstance(x, ast.Compare) and len(x.ops) == 1 and V.text(x.comparators[0]) == "distance_in_voxels"
-                     and V.text(x.left).startswith("geom.point_pairwise_dist("), "clean_by_distance: `<pairwise distance> <op> <distance_in_voxels>`")
+                     and V.text(x.left).startswith("geom.point_pairwise_dist("), "clean_by_distance: the comparison `d_cut_idx = dist < d_cut` (dist = geom.point_pairwise_dist(pos[j, :], pos), d_cut = distance_in_voxels) is not found in this form")
 
     def a_dist_cmp():
         return _cmp(dist_compare())
@@ -332,7 +617,7 @@ def translate(src):
 
     def a_sort():
         V = CV()
-        iff = first(V, lambda x: isinstance(x, ast.If) and V.text(x.test) == "keep_greater", "clean_by_distance: `if keep_greater:`")
+        iff = first(V, lambda x: isinstance(x, ast.If) and V.text(x.test) == "keep_greater", "clean_by_distance: `if keep_greater: sort_idx = np.argsort(temp_scores)[::-1]` / `else: sort_idx = np.argsort(temp_scores)` is not found")
 
         def direction(body):
             for st in body:
@@ -343,7 +628,7 @@ def translate(src):
                     if v == f"np.argsort({SCORES})":
                         return False
                     raise Missing(f"clean_by_distance: processing order = {v[:120]}")
-            raise Missing("clean_by_distance: assignment of the processing order inside `if keep_greater`")
+            raise Missing("clean_by_distance: `sort_idx = np.argsort(temp_scores)[::-1]` / `sort_idx = np.argsort(temp_scores)` no longer assigned inside `if keep_greater:` / `else:`")
         return [direction(iff.body), direction(iff.orelse)]
 
     def a_groups():
@@ -372,7 +657,7 @@ def translate(src):
 
     def a_coords():
         V = view(M, "Motl.get_coordinates")
-        iff = first(V, lambda x: isinstance(x, ast.If) and n(x.test) == "tomo_numberisNone", "get_coordinates: `if tomo_number is None`")
+        iff = first(V, lambda x: isinstance(x, ast.If) and n(x.test) == "tomo_numberisNone", "get_coordinates: `if tomo_number is None: coord = self.df.loc[:, ['x','y','z']].values + self.df.loc[:, ['shift_x','shift_y','shift_z']].values` is not found")
         st = iff.body[0]
         if not (isinstance(st, ast.Assign) and isinstance(st.value, ast.BinOp) and isinstance(st.value.op, ast.Add)):
             raise Missing("get_coordinates: coord = a + b")
@@ -392,7 +677,7 @@ def translate(src):
         p = V.params
         calls = [x for x in ast.walk(V.fn) if isinstance(x, ast.Call) and n(x.func) == "np.linalg.norm"]
         if len(calls) != 1 or len(p) != 2:
-            raise Missing("point_pairwise_dist: one np.linalg.norm call over two parameters")
+            raise Missing("point_pairwise_dist: `pairwise_dist = np.linalg.norm(coord_1 - coord_2, axis=1)` (one norm call over the two parameters) is not found")
         c = calls[0]
         kw = {k.arg: n(k.value) for k in c.keywords}
         ok = (len(c.args) == 1 and isinstance(c.args[0], ast.BinOp) and isinstance(c.args[0].op, ast.Sub) and n(c.args[0].left) == p[0]
@@ -406,20 +691,20 @@ def translate(src):
     def sorted_call():
         V = EV()
         return first(V, lambda x: isinstance(x, ast.Call) and n(x.func) == "sorted" and any(k.arg == "key" for k in x.keywords),
-                     "scores_extract_particles: sorted(<candidates>, key=..., reverse=...)")
+                     "scores_extract_particles: `scored_coords = sorted(zip(s_ind.T, scores_map[...]), key=lambda x: x[1], reverse=True)` is not found")
 
     def b_thr():
         V = EV()
         c = first(V, lambda x: isinstance(x, ast.Call) and n(x.func) == "np.where" and x.args and isinstance(x.args[0], ast.Compare)
                   and len(x.args[0].ops) == 1 and "cryomap.read(scores_map)" in V.text(x.args[0].left)
                   and V.text(x.args[0].comparators[0]).startswith("ALT(scores_threshold,"),
-                  "scores_extract_particles: np.where(<scores map> <op> <threshold>)")
+                  "scores_extract_particles: `t_idx = np.where(scores_map > threshold)` is not found in this form")
         return _cmp(c.args[0])
 
     def b_ball():
         V = EV()
         c = first(V, lambda x: isinstance(x, ast.Call) and isinstance(x.func, ast.Attribute) and x.func.attr == "query_ball_point",
-                  "scores_extract_particles: query_ball_point")
+                  "scores_extract_particles: `nearby_coords = tree.query_ball_point(coord, particle_diameter)` is not found")
         S_ = V.text(sorted_call())
         if not V.text(c.func.value).startswith("KDTree([") or len(c.args) != 2 or c.keywords or V.text(c.args[0]) != f"EACH({S_})[0]":
             raise Missing("scores_extract_particles: KDTree([...]).query_ball_point(<candidate position>, r)")
@@ -430,7 +715,7 @@ def translate(src):
         S_ = V.text(sorted_call())
         c = first(V, lambda x: isinstance(x, ast.Compare) and len(x.ops) == 1 and V.text(x.comparators[0]) == f"EACH({S_})[1]"
                   and isinstance(x.left, ast.Subscript) and isinstance(x.ops[0], (ast.Lt, ast.LtE, ast.Gt, ast.GtE)),
-                  "scores_extract_particles: <score of a ball member> <op> <score of the processed candidate>")
+                  "scores_extract_particles: `coord_to_score[nearby_coord_tuple] <= score` is not found in this form")
         return _cmp(c)
 
     def b_sorted():
@@ -444,7 +729,7 @@ def translate(src):
     def fill_dict():
         V = EV()
         c = first(V, lambda x: isinstance(x, ast.Call) and isinstance(x.func, ast.Attribute) and x.func.attr == "fill" and x.args
-                  and isinstance(x.args[0], ast.Dict) and V.text(x.func.value) == "cryomotl.Motl()", "scores_extract_particles: Motl().fill({...})")
+                  and isinstance(x.args[0], ast.Dict) and V.text(x.func.value) == "cryomotl.Motl()", "scores_extract_particles: `motl = cryomotl.Motl(); motl.fill({'x': rpos[:, 0] + 1, ...})` is not found")
         return {ast.literal_eval(k): v for k, v in zip(c.args[0].keys, c.args[0].values)}
 
     def col_of(node, what):
@@ -477,7 +762,7 @@ def translate(src):
     def angidx_node():
         V = EV()
         return first(V, lambda x: isinstance(x, ast.BinOp) and V.text(x.right) == "angles_numbering" and isinstance(x.left, ast.Call)
-                     and isinstance(x.left.func, ast.Attribute) and x.left.func.attr == "astype", "scores_extract_particles: <angle map entries>.astype(int) <op> angles_numbering")
+                     and isinstance(x.left.func, ast.Attribute) and x.left.func.attr == "astype", "scores_extract_particles: `ang_idx = angles_map[rpos[:, 0], rpos[:, 1], rpos[:, 2]].astype(int) - angles_numbering` is not found in this form")
 
     def b_angidx():
         V = EV()
@@ -575,8 +860,36 @@ def translate(src):
         return [names(zz[0].body), names(zz[0].orelse), ast.literal_eval(n(sel[0].value)[len(var + ".loc[:,"):-len(".to_numpy()") - 1])]
 
     # ---- signatures and whole bodies --------------------------------------------------------------------------------
-    BODIES = [("cleanByDistance", M, "Motl.clean_by_distance"), ("getMotlSubset", M, "Motl.get_motl_subset"), ("getCoordinates", M, "Motl.get_coordinates"),
-              ("pointPairwiseDist", G, "point_pairwise_dist"), ("scoresExtractParticles", T, "scores_extract_particles"), ("rotAnglesLoad", I, "rot_angles_load")]
+    BODIES = [(ln, rel, qual) for ln, rel, qual in _BODIES]
+
+    # ---- cryomap.read -------------------------------------------------------------------------------------------------
+    def RV():
+        return view(C, "read")
+
+    def r_array():
+        """ndarray branch: `data = np.array(input_map)` (no dtype, no cast), then a plain copy; a cast happens only under `data_type is not None`"""
+        V = RV()
+        br = first(V, lambda x: isinstance(x, ast.If) and n(x.test) == "isinstance(input_map,np.ndarray)",
+                   "cryomap.read: `elif isinstance(input_map, np.ndarray): data = np.array(input_map)`")
+        if [n(st) for st in br.body] != ["data=np.array(input_map)"]:
+            raise Missing("cryomap.read: ndarray branch is no longer exactly `data = np.array(input_map)`: " + "; ".join(n(st) for st in br.body)[:160])
+        tail = [st for st in V.fn.body if not isinstance(st, ast.If) or n(st.test) == "data_typeisnotNone"]
+        tail = [n(st).replace("\n", "") for st in tail if not (isinstance(st, ast.Expr) and isinstance(st.value, ast.Constant))]
+        want = ["data=np.array(data,copy=True)", "ifdata_typeisnotNone:data=data.astype(data_type)", "returndata"]
+        if [t.replace(" ", "") for t in tail] != want:
+            raise Missing("cryomap.read: after the branches `data = np.array(data, copy=True)`, the cast only `if data_type is not None`, `return data`; found " + " | ".join(tail)[:200])
+        return True
+
+    def r_file():
+        """file branch: mrc via mrcfile.open(..).data, em via emfile.read(..)[1], then `if transpose: data = data.transpose(2, 1, 0)`"""
+        V = RV()
+        tr = first(V, lambda x: isinstance(x, ast.If) and n(x.test) == "transpose", "cryomap.read: `if transpose: data = data.transpose(2, 1, 0)`")
+        if [n(st) for st in tr.body] != ["data=data.transpose(2,1,0)"] or tr.orelse:
+            raise Missing("cryomap.read: file branch transposition is no longer `data = data.transpose(2, 1, 0)`: " + "; ".join(n(st) for st in tr.body)[:160])
+        srcs = sorted(n(x.value) for x in ast.walk(V.fn) if isinstance(x, ast.Assign) and n(x.targets[0]) == "data" and ("mrcfile" in n(x.value) or "emfile" in n(x.value)))
+        if srcs != ["emfile.read(input_map)[1]", "mrcfile.open(input_map).data"]:
+            raise Missing(f"cryomap.read: file readers {srcs}")
+        return [2, 1, 0]
 
     dist_cmp = src.anchor("clean_by_distance:dist<d_cut", a_dist_cmp)
     self_ex = src.anchor("clean_by_distance:d_cut_idx[j]=False", a_self)
@@ -600,9 +913,27 @@ def translate(src):
     d_subset = src.anchor("signature:get_motl_subset-defaults", lambda: [list(t) for t in _defaults(src.find(M, "Motl.get_motl_subset"))])
     d_peaks = src.anchor("signature:scores_extract_particles-defaults", lambda: [list(t) for t in _defaults(src.find(T, "scores_extract_particles"))])
     d_load = src.anchor("signature:rot_angles_load-defaults", lambda: [list(t) for t in _defaults(src.find(I, "rot_angles_load"))])
-    dumps = {}
+    r_arr = src.anchor("cryomap.read:ndarray-branch-no-cast", r_array)
+    r_fil = src.anchor("cryomap.read:file-branch-transpose(2,1,0)", r_file)
+    d_read = src.anchor("signature:cryomap.read-defaults", lambda: [list(t) for t in _defaults(src.find(C, "read"))])
+    dumps, raw = {}, {}
+
+    def body(rel, qual, lean_name):
+        """the normalised dump; when it differs from the documented one the anchor says WHERE (first differing line, both texts)"""
+        lines = view(rel, qual).dump()
+        raw[lean_name] = lines
+        doc = DOC_BODIES.get(f"{rel}:{qual}")
+        if doc is not None and lines != doc:
+            k = next((i for i, (a, b_) in enumerate(zip(lines, doc)) if a != b_), min(len(lines), len(doc)))
+            was = doc[k] if k < len(doc) else "<end of function>"
+            now = lines[k] if k < len(lines) else "<end of function>"
+            raise Missing(f"{qual}: body differs from the documented one at normalised line {k + 1} of {len(doc)}: documented `{was[:200]}` now `{now[:200]}`"
+                          + (f" ({len(lines) - len(doc):+d} lines)" if len(lines) != len(doc) else ""))
+        return lines
     for lean_name, rel, qual in BODIES:
-        dumps[lean_name] = src.anchor(f"body:{qual}", lambda rel=rel, qual=qual: view(rel, qual).dump())
+        dumps[lean_name] = src.anchor(f"body:{qual}", lambda rel=rel, qual=qual, lean_name=lean_name: body(rel, qual, lean_name))
+        if dumps[lean_name] is None and lean_name in raw:
+            dumps[lean_name] = raw[lean_name]  # the digest in Gen is the one of TODAY's body (the theorem about it fails too)
 
     def b(v):
         return "true" if v else "false"
@@ -628,7 +959,7 @@ def translate(src):
         lines = dumps[lean_name]
         body_defs.append(f"def {lean_name}Body : String × Nat := ({core.lean_str(_digest(lines) if lines else '?')}, {len(lines) if lines else 0})")
         body_comments.append(f"/- {rel}:{qual}, locals numbered in order of first binding\n" + "\n".join(l.replace("-/", "- /").replace("/-", "/ -") for l in (lines or ["<missing>"])) + "\n-/")
-    return f"""-- GENERATED by harness/props/c07.py from {M}, {G}, {T}, {I}; do not edit
+    return f"""-- GENERATED by harness/props/c07.py from {M}, {G}, {T}, {I}, {C}; do not edit
 namespace CryoCat.Gen.C07
 inductive Cmp | lt | le | gt | ge | other
 deriving DecidableEq, Repr
@@ -664,6 +995,10 @@ def cleanDefaults : List (String × String) := {dflt(d_clean, DOC["clean_default
 def subsetDefaults : List (String × String) := {dflt(d_subset, DOC["subset_defaults"])}
 def peakDefaults : List (String × String) := {dflt(d_peaks, DOC["peak_defaults"])}
 def loadDefaults : List (String × String) := {dflt(d_load, DOC["load_defaults"])}
+def readDefaults : List (String × String) := {dflt(d_read, DOC["read_defaults"])}
+-- cryomap.read
+def readArrayBranchNoCast : Bool := {b(True if r_arr is None else r_arr)}
+def readFileTranspose : List Nat := {nat_list(r_fil if r_fil is not None else DOC["read_transpose"])}
 -- whole bodies: (sha-256 prefix of the normalised dump below, number of dump lines)
 {chr(10).join(body_defs)}
 end CryoCat.Gen.C07
@@ -716,11 +1051,25 @@ def _layout(rng, n, d):
     return pts[:n], kind
 
 
-def _has_tie(pos, grp, d):
-    """exact distance tie inside a group?"""
+def _has_tie(pos, grp, d, near_bits=None):
+    """exact distance tie inside a group?  With `near_bits` (fine grid) also: a pair whose squared distance differs from d^2 by less
+    than d^2 * 2^-near_bits, i.e. closer to a tie than float64 `norm(diff) < d` (relative error < 2^-50) can be trusted to decide"""
+    d2 = int(d) * int(d)
+    if near_bits is not None:
+        by = {}
+        for p_, g_ in zip(pos, grp):
+            by.setdefault(g_, []).append(p_)
+        for q in by.values():
+            for i in range(len(q)):
+                a = q[i]
+                for j in range(i + 1, len(q)):
+                    b = q[j]
+                    dd = (a[0] - b[0]) ** 2 + (a[1] - b[1]) ** 2 + (a[2] - b[2]) ** 2
+                    if abs(dd - d2) << near_bits < d2 or dd == d2:
+                        return True
+        return False
     p = np.array(pos, dtype=np.int64)
     g = np.array(grp)
-    d2 = int(d) * int(d)
     for v in set(grp):
         q = p[g == v]
         if len(q) < 2:
@@ -736,8 +1085,15 @@ def _positions(rows):
     return [[r[CI[c]] + r[CI[sc]] for c, sc in (("x", "shift_x"), ("y", "shift_y"), ("z", "shift_z"))] for r in rows]
 
 
-def _rows_tie(rows, feature, d):
+def _rows_tie(rows, feature, d, scale=None):
+    """exact tie inside a group (decided on Python integers when the case is not on the 2^-10 grid: squares exceed int64 there)"""
     fi = CI[feature]
+    if scale not in (None, S):
+        pos, grp, d2 = _positions(rows), [r[fi] for r in rows], int(d) * int(d)
+        by = {}
+        for p_, g_ in zip(pos, grp):
+            by.setdefault(g_, []).append(p_)
+        return any((a[0] - b[0]) ** 2 + (a[1] - b[1]) ** 2 + (a[2] - b[2]) ** 2 == d2 for q in by.values() for i, a in enumerate(q) for b in q[i + 1:])
     return _has_tie(_positions(rows), [r[fi] for r in rows], d)
 
 
@@ -781,7 +1137,98 @@ def _distinct_scores(rng, n):
     return [s * 16 for s in rng.sample(range(-n * 8, n * 8 + 8), n)]
 
 
+FINE = 2 ** 30  # the fine grid 2^-30: positions and scores that need more than the 24 mantissa bits of float32
+
+
+def _fine_clean(rng, tier):
+    """particle list on the 2^-30 grid (audit 2, items 1-2): neighbours at d +- 1..16 grid units (|dist - d| / d >= 2^-35, far above the
+    2^-50 of float64 but invisible to float32), scores that differ in their low bits only, x split into x + shift_x at the same grid"""
+    SC = FINE
+    n = rng.randint(2, 12) if tier == "search" else rng.choice([2, 3, 4, rng.randint(5, 40)])
+    d = rng.choice([1, 2, 2, 3, 5, 10]) * SC + rng.choice([0, 0, SC // 2, rng.randrange(SC)])
+    ngroups = rng.choice([1, 1, 2, 3])
+    feature = rng.choice(FEATURES)
+    gvals = [g * SC for g in rng.sample([1, 2, 3, 5, 7, 100, 0, -1], ngroups)]
+    margins = [1, 1, 2, 3, 5, 16, 2 ** 7, 2 ** 10, 2 ** 20]
+    pts = []
+    if rng.random() < 0.6 or n < 4:
+        axis = rng.choice([(1, 0, 0), (0, 1, 0), (0, 0, 1)])
+        p = [rng.randrange(0, 64 * SC) for _ in range(3)]
+        for _ in range(n):
+            pts.append(list(p))
+            step = d + rng.choice([-1, 1, 1]) * rng.choice(margins)
+            if rng.random() < 0.1:
+                step = 3 * d
+            p = [p[a] + axis[a] * step for a in range(3)]
+        layout = "fine-chain"
+        if rng.random() < 0.5:
+            rng.shuffle(pts)
+    else:
+        side = int(max(2.0, (n ** (1 / 3)) * (d / SC)) * SC)
+        pts = [[rng.randrange(0, side) for _ in range(3)] for _ in range(n)]
+        for i in range(0, n - 1, 3):
+            off = d + rng.choice([-1, 1]) * rng.choice(margins)
+            a = rng.randrange(3)
+            pts[i + 1] = [pts[i][k] + (off if k == a else 0) for k in range(3)]
+        layout = "fine-pairs"
+    grp = [gvals[i % ngroups] for i in range(n)] if rng.random() < 0.5 else [rng.choice(gvals) for _ in range(n)]
+    for _ in range(200):
+        if not _has_tie(pts, grp, d, near_bits=40):
+            break
+        d += rng.choice([1, 3, 7])
+    hi = rng.randrange(1, 2 ** 20)
+    scores = [(hi << 30) + v for v in rng.sample(range(2 ** 30), n)]  # equal in their upper bits: float32 makes them tie
+    if rng.random() < 0.3:
+        scores = [v * 2 ** 18 + rng.randrange(2 ** 18) for v in rng.sample(range(-4 * n, 4 * n + 4), n)]
+    rows = []
+    for i in range(n):
+        row = [0] * 20
+        for c in ("geom1", "geom2", "geom3", "geom4", "geom5", "subtomo_mean", "tomo_id", "object_id", "class"):
+            row[CI[c]] = rng.randint(1, 3) * SC
+        for c in ("phi", "psi", "theta"):
+            row[CI[c]] = rng.randint(-180 * 4, 180 * 4) * (SC // 4)
+        row[CI["subtomo_id"]] = (i + 1) * SC
+        row[CI["score"]] = scores[i]
+        row[CI[feature]] = grp[i]
+        for a, (c, sc) in enumerate((("x", "shift_x"), ("y", "shift_y"), ("z", "shift_z"))):
+            sh = rng.randrange(-3 * SC, 3 * SC) if rng.random() < 0.5 else 0
+            row[CI[c]] = pts[i][a] - sh
+            row[CI[sc]] = sh
+        rows.append(row)
+    index, ikind = _index(rng, n)
+    return dict(kind="clean", d=d, keep_greater=rng.random() < 0.6, feature=feature, rows=rows, layout=layout, scores="fine", groups="small",
+                index=index, index_kind=ikind, omit=rng.random() < 0.3, planted_tie=False, then=[], scale=SC, grid="2^-30")
+
+
+def _int_clean(rng, case):
+    """the same list with INTEGER values everywhere (what a STAR file holding integers only is read as): values = the numerators of the
+    2^-10 grid, sent at scale 2 so that the radius may be a half-integer; the DataFrame handed in is int64 in every column, or in the
+    coordinate and id columns only"""
+    c = dict(case, rows=[[2 * v for v in r] for r in case["rows"]], then=[], scale=2, grid="integers",
+             int_cols=rng.choice(["all", "all", "coords"]))
+    d = 2 * case["d"] + rng.choice([0, 1, 1])
+    for _ in range(50):
+        if not _rows_tie(c["rows"], c["feature"], d, scale=2):
+            break
+        d += 2
+    c["d"] = d
+    c["planted_tie"] = False
+    return c
+
+
 def gen_clean(rng, tier):
+    r0 = rng.random()
+    if r0 < 0.10:
+        return _fine_clean(rng, tier)
+    if r0 < 0.18:
+        base = _gen_clean(rng, tier)
+        if not base["planted_tie"] and len(base["rows"]) <= 200:
+            return _int_clean(rng, base)
+        return base
+    return _gen_clean(rng, tier)
+
+
+def _gen_clean(rng, tier):
     big = {"quick": 0.04, "thorough": 0.25, "search": 0.0}[tier]
     r = rng.random()
     if tier == "search":
@@ -973,7 +1420,87 @@ def gen_peaks(rng, tier, dense=False):
     return case
 
 
+def _decimal_angles(rng, L, dec):
+    """angle list with `dec` decimals (off every dyadic grid), as IEEE-754 bit patterns: the model only copies and compares them"""
+    out = []
+    for _ in range(L):
+        a = round(rng.uniform(-180, 180), dec) + 0.0
+        b = round(rng.uniform(0, 180), dec) + 0.0
+        c = round(rng.uniform(-180, 180), dec) + 0.0
+        while c == b:
+            c = round(rng.uniform(-180, 180), dec) + 0.0
+        out.append([core.f2b(a), core.f2b(b), core.f2b(c)])
+    return out
+
+
+def _vary_peaks(rng, case):
+    """inputs a user naturally hands in (audit 2, items 1 and 5, H3): scores needing all 52 mantissa bits, decimal angles, float32 / integer
+    typed maps and lists, maps given as MRC / EM file PATHS (boxes with three different side lengths)"""
+    c = dict(case, then=[dict(t) for t in case.get("then") or []])
+    vals = c["scores"]
+    mx = max([abs(v) for v in vals] + [abs(c["thr"])] + [abs(t["thr"]) for t in c["then"]])
+    k = 50 - mx.bit_length()
+    c["score_bits"] = "<=24"
+    if rng.random() < 0.4 and k >= 26:
+        low = {v: rng.randrange(1, 2 ** k) for v in set(vals)}
+        top = max(vals)
+
+        def f(v):
+            return v * 2 ** k + low[v]
+
+        def fthr(t):
+            if t in low:
+                return f(t)  # exactly a voxel's score
+            if t + 1 in low:
+                return f(t + 1) - 1  # one unit in the last place below a voxel's score
+            return f(top) + (t - top)  # above the maximum
+        c["thr"] = fthr(c["thr"])
+        for t in c["then"]:
+            t["thr"] = fthr(t["thr"])
+        c["scores"] = [f(v) for v in vals]
+        c["sscale"] = 2 ** 52  # values in [0, 1/4): what a float64 cross-correlation map holds
+        c["score_bits"] = "52"
+    small = c["score_bits"] == "<=24" and mx < 2 ** 24
+    L = len(c["anglist"])
+    dec = None
+    if rng.random() < 0.5:
+        dec = rng.choice([0, 1, 2, 2, 3, 3])
+        c["ang_bits"] = True
+        c["anglist"] = _decimal_angles(rng, L, dec)
+        for t in c["then"]:
+            if t.get("anglist") is not None:
+                t["anglist"] = _decimal_angles(rng, L, dec)
+        c["ang_values"] = f"{dec} decimals"
+    distinct = len(set(c["dims"])) == 3
+    r = rng.random()
+    c["maps_as"] = "array"
+    if distinct and r < 0.3:
+        c["maps_as"] = "mrc" if (small and rng.random() < 0.6) else "em"
+    if c["maps_as"] == "mrc":
+        c["map_dtype"], c["ang_dtype"] = "float32", rng.choice(["float32", "int16"])
+    elif c["maps_as"] == "em":
+        c["map_dtype"] = "float32" if (small and rng.random() < 0.3) else "float64"
+        c["ang_dtype"] = rng.choice(["float64", "float32", "int32", "int16"])
+    else:
+        c["map_dtype"] = "float32" if (small and rng.random() < 0.25) else "float64"
+        c["ang_dtype"] = rng.choice(["float64", "float64", "float32", "int32", "int64", "int16"])
+    ld = ["float64", "float64"]
+    if dec == 0:
+        ld += ["int64", "int64", "float32"]
+    elif dec is None:
+        ld += ["float32"]
+    c["list_dtype"] = rng.choice(ld)
+    return c
+
+
 def generate(rng, tier, n):
+    for case in _generate(rng, tier, n):
+        if case["kind"] == "peaks" and not case.get("dense"):
+            case = _vary_peaks(rng, case)
+        yield case
+
+
+def _generate(rng, tier, n):
     dense_at = set()
     if tier == "quick":
         dense_at = {3, n // 2}
@@ -1043,9 +1570,13 @@ def _df_changed(df, state):
     return ""
 
 
+INT_COORD_COLS = ["x", "y", "z", "tomo_id", "object_id", "subtomo_id", "class"]
+
+
 def _clean_call(df, sub, cryomotl):
     """one real clean_by_distance on the caller-owned DataFrame `df`; keywords equal to the documented defaults are omitted when asked"""
     rows = sub["rows"]
+    SC = sub.get("scale", S)
     state = _df_state(df)
     kw = {}
     if not (sub.get("omit") and sub["keep_greater"] is True):
@@ -1055,7 +1586,7 @@ def _clean_call(df, sub, cryomotl):
     try:
         m = cryomotl.Motl(df)
         with _quiet():
-            m.clean_by_distance(sub["d"] / S, sub["feature"], **kw)
+            m.clean_by_distance(sub["d"] / SC, sub["feature"], **kw)
         out = m.df
     except Exception as e:
         o = _attr(e)
@@ -1069,21 +1600,21 @@ def _clean_call(df, sub, cryomotl):
         return o
     # dtypes as returned (never coerced): a numeric field that comes back as text / object cannot be a particle field
     o["dtypes"] = {c: str(out[c].dtype) for c in COLS if str(out[c].dtype) != "float64"}
+    o["in_dtypes"] = {c: str(df[c].dtype) for c in COLS if str(df[c].dtype) != "float64"}
     o["textual"] = [c for c in COLS if out[c].dtype.kind not in "fiu"]
     if o["textual"]:
         return o
-    vals = np.column_stack([out[c].to_numpy() for c in COLS]) if len(out) else np.zeros((0, 20))
     by_id = {r[CI["subtomo_id"]]: r for r in rows}
     index_of = {r[CI["subtomo_id"]]: i for i, r in enumerate(rows)}
     ids, same = [], True
-    for r in vals:
-        sid = float(r[CI["subtomo_id"]]) * S
+    for r in zip(*[out[c].tolist() for c in COLS]):  # native python numbers of the returned dtypes (int stays int: exact)
+        sid = r[CI["subtomo_id"]] * SC
         if sid != sid or sid != int(sid) or int(sid) not in by_id:
             same = False
             ids.append(-1)
             continue
         ids.append(index_of[int(sid)])
-        if [float(v) * S for v in r] != [float(v) for v in by_id[int(sid)]]:
+        if any(v != v or v * SC != w for v, w in zip(r, by_id[int(sid)])):
             same = False
     o["kept"] = ids
     o["unchanged"] = same
@@ -1094,13 +1625,23 @@ def _run_clean(case):
     import pandas as pd
     from cryocat import cryomotl
     subs = _subcases(case)
-    arr = np.array(subs[0]["rows"], dtype=np.float64) / S
-    df = pd.DataFrame(arr, columns=COLS, index=case.get("index"))  # the caller-owned object, shared by every call of the case
+    SC = case.get("scale", S)
+    if case.get("int_cols"):  # integer-typed columns (a STAR file holding integers only is read as int64)
+        ints = np.array([[v // SC for v in r] for r in subs[0]["rows"]], dtype=np.int64)
+        if case["int_cols"] == "all":
+            df = pd.DataFrame(ints, columns=COLS, index=case.get("index"))
+        else:
+            df = pd.DataFrame(ints.astype(np.float64), columns=COLS, index=case.get("index"))
+            for c in INT_COORD_COLS:
+                df[c] = ints[:, CI[c]]
+    else:
+        arr = np.array(subs[0]["rows"], dtype=np.float64) / SC
+        df = pd.DataFrame(arr, columns=COLS, index=case.get("index"))  # the caller-owned object, shared by every call of the case
     calls = []
     for k, sub in enumerate(subs):
         if k > 0:
             for col, vals in sub["set"].items():  # a legitimate in-place edit by the caller between two calls
-                df[col] = np.array(vals, dtype=np.float64) / S
+                df[col] = np.array(vals, dtype=np.float64) / SC
         calls.append(_clean_call(df, sub, cryomotl))
     return dict(calls=calls)
 
@@ -1108,11 +1649,32 @@ def _run_clean(case):
 def _write_csv(path, L):
     with open(path, "w") as f:
         for row in L:
-            f.write(",".join(repr(float(v)) for v in row) + "\n")
+            f.write(",".join(str(int(v)) if L.dtype.kind in "iu" else repr(float(v)) for v in row) + "\n")
 
 
-def _peaks_call(Sm, Am, lst, L, sub, tmana):
+def _csv_text(L):
+    want = io.StringIO()
+    for row in L:
+        want.write(",".join(str(int(v)) if L.dtype.kind in "iu" else repr(float(v)) for v in row) + "\n")
+    return want.getvalue()
+
+
+def _write_map(path, arr):
+    """a map file written WITHOUT cryocat: MRC / EM data are stored section by section, row by row (array axes z, y, x; x runs fastest),
+    cryoCAT's array convention is [x, y, z]"""
+    data = np.ascontiguousarray(arr.transpose(2, 1, 0))
+    if path.endswith(".mrc"):
+        import mrcfile
+        with mrcfile.new(path, overwrite=True) as m:
+            m.set_data(data)
+    else:
+        import emfile
+        emfile.write(path, data, overwrite=True)
+
+
+def _peaks_call(Sm, Am, lst, L, sub, tmana, paths=None):
     before = (Sm.copy(), Am.copy(), L.copy())
+    files = {p_: open(p_, "rb").read() for p_ in (paths or [])}
     kw = dict(scores_threshold=sub["thr"] / sub["sscale"])
     if not (sub.get("omit") and sub["order"] == "zxz"):
         kw["angles_order"] = sub["order"]
@@ -1127,15 +1689,19 @@ def _peaks_call(Sm, Am, lst, L, sub, tmana):
                 txt = open(lst).read()
             except OSError:
                 txt = None
-            want = io.StringIO()
-            for row in L:
-                want.write(",".join(repr(float(v)) for v in row) + "\n")
-            if txt != want.getvalue():
+            if txt != _csv_text(L):
                 bad.append("angles_list file")
+        for p_, data in files.items():
+            try:
+                same = open(p_, "rb").read() == data
+            except OSError:
+                same = False
+            if not same:
+                bad.append("map file " + os.path.basename(p_))
         return ",".join(bad)
     try:
         with _quiet():
-            m = tmana.scores_extract_particles(Sm, Am, lst, 7, sub["dn"] / sub["dd"], **kw)
+            m = tmana.scores_extract_particles(paths[0] if paths else Sm, paths[1] if paths else Am, lst, 7, sub["dn"] / sub["dd"], **kw)
     except Exception as e:
         o = _attr(e)
         o["input_modified"] = changed()
@@ -1152,41 +1718,62 @@ def _peaks_call(Sm, Am, lst, L, sub, tmana):
     if missing:
         return dict(o, result="peaks", rows=[], exact=False, textual=[], dtypes={}, note="missing columns " + ",".join(missing))
     o["dtypes"] = {c: str(df[c].dtype) for c in want}
+    ldt = str(L.dtype) if not isinstance(lst, str) else ("int64" if L.dtype.kind in "iu" else "float64")
+    o["in_dtypes"] = dict(score=str(Sm.dtype), phi=ldt, theta=ldt, psi=ldt)
     o["textual"] = [c for c in want if df[c].dtype.kind not in "fiu"]
     o["result"] = "peaks"
     if o["textual"]:
         return dict(o, rows=[], exact=False)
     rows, exact = [], True
-    for x, y, z, s, phi, the, psi in zip(*[df[c].tolist() for c in want]):  # native python numbers of the returned dtype
-        vals = [x, y, z, s * sub["sscale"], phi * sub["ascale"], the * sub["ascale"], psi * sub["ascale"]]
+    bits = bool(sub.get("ang_bits"))
+    for x, y, z, s_, phi, the, psi in zip(*[df[c].tolist() for c in want]):  # native python numbers of the returned dtype
+        vals = [x, y, z, s_ * sub["sscale"]] + ([] if bits else [phi * sub["ascale"], the * sub["ascale"], psi * sub["ascale"]])
         if any(v != v or v in (float("inf"), float("-inf")) or v != int(v) for v in vals):
             exact = False
-            rows.append([0 if (v != v or abs(v) == float("inf")) else int(round(v)) for v in vals])
+            row = [0 if (v != v or abs(v) == float("inf")) else int(round(v)) for v in vals]
         else:
-            rows.append([int(v) for v in vals])
+            row = [int(v) for v in vals]
+        if bits:  # decimal angles travel as bit patterns of the float64 value of what came back (a narrowed value has other bits)
+            row += [core.f2b(float(a)) for a in (phi, the, psi)]
+        rows.append(row)
     return dict(o, rows=rows, exact=exact)
+
+
+def _angle_array(sub, anglist):
+    if sub.get("ang_bits"):
+        L = np.array([[core.b2f(v) for v in row] for row in anglist], dtype=np.float64)
+    else:
+        L = np.array(anglist, dtype=np.float64) / sub["ascale"]
+    return L.astype(sub.get("list_dtype", "float64"))
 
 
 def _run_peaks(case):
     from cryocat import tmana
     subs = _subcases(case)
     nx, ny, nz = case["dims"]
-    Sm = np.array(case["scores"], dtype=np.float64).reshape(nx, ny, nz) / case["sscale"]  # caller-owned, shared by every call
-    Am = np.array(case["angles"], dtype=np.float64).reshape(nx, ny, nz)
-    L = np.array(case["anglist"], dtype=np.float64) / case["ascale"]
+    # caller-owned, shared by every call
+    Sm = (np.array(case["scores"], dtype=np.float64).reshape(nx, ny, nz) / case["sscale"]).astype(case.get("map_dtype", "float64"))
+    Am = np.array(case["angles"], dtype=np.float64).reshape(nx, ny, nz).astype(case.get("ang_dtype", "float64"))
+    L = _angle_array(case, case["anglist"])
     calls = []
     with tempfile.TemporaryDirectory(prefix="c07_") as td:
         path = os.path.join(td, "angles.csv")
+        paths = None
+        if case.get("maps_as", "array") != "array":
+            ext = "." + case["maps_as"]
+            paths = [os.path.join(td, "scores" + ext), os.path.join(td, "angles" + ext)]
+            _write_map(paths[0], Sm)
+            _write_map(paths[1], Am)
         for k, sub in enumerate(subs):
             if k > 0 and sub.get("rewrite"):
-                L[...] = np.array(sub["anglist"], dtype=np.float64) / case["ascale"]  # the caller rewrites the same array / the same file
+                L[...] = _angle_array(case, sub["anglist"])  # the caller rewrites the same array / the same file
             if case.get("list_as") == "csv":
                 if k == 0 or sub.get("rewrite"):
                     _write_csv(path, L)
                 lst = path
             else:
                 lst = L
-            calls.append(_peaks_call(Sm, Am, lst, L, sub, tmana))
+            calls.append(_peaks_call(Sm, Am, lst, L, sub, tmana, paths))
     return dict(calls=calls)
 
 
@@ -1263,22 +1850,30 @@ def _judge_clean(sub, o, rs):
     if kept is None or not o["unchanged"] or any(i < 0 for i in kept):
         out.append(dict(kind="spec", clause="remaining-not-an-input-particle", detail=f"a remaining row is not bit-identical to the input row with its subtomo_id {o.get('note','')}"))
     chk = rs[1] if len(rs) > 1 else None
-    tie = _rows_tie(sub["rows"], sub["feature"], sub["d"])  # a pair at distance exactly d: reported only when both readings reject
+    SC = sub.get("scale", S)
+    tie = _rows_tie(sub["rows"], sub["feature"], sub["d"], scale=SC)  # a pair at distance exactly d: reported only when both readings reject
     if chk is not None and "error" in chk:
         out.append(dict(kind="corr", clause="checker-rejects-encoding", detail=str(chk)))
     elif chk is not None:
-        rejected = (not chk["ok"]) and (not tie or not chk["ok_le"])
-        indep = chk["independent"] or (tie and chk["independent_le"])
-        what = f"survivors {kept[:30]} of {n} particles (d={sub['d']/S}, keep_greater={sub['keep_greater']}, group field {sub['feature']}, keywords omitted={bool(sub.get('omit'))})"
+        # SPEC verdict: the order-free checker (theorem checkCleanCore_iff: membership, none twice, Separated, Dominated - the clauses the
+        # statement names).  The ORDER of the survivors is not a clause of the statement: `in_order` (theorem groupsInOrder_iff) is corr.
+        rejected = (not chk["ok_core"]) and (not tie or not chk["ok_core_le"])
+        indep = chk["independent_core"] or (tie and chk["independent_core_le"])
+        what = f"survivors {kept[:30]} of {n} particles (d={sub['d']/SC}, keep_greater={sub['keep_greater']}, group field {sub['feature']}, keywords omitted={bool(sub.get('omit'))}, grid {sub.get('grid', '2^-10')})"
         if rejected:
-            badg = [f"{g['group']/S}:{g['clause']}" for g in chk["groups"] if not g["ok"]][:4]
-            out.append(dict(kind="spec", clause=chk["clause"], detail=f"verified checker checkClean rejects the {what}" + (f"; the result is rejected under `dist <= d` as well ({chk['clause_le']})" if tie else "")
+            badg = [f"{g['group']/SC}:{g['clause']}" for g in chk["groups_core"] if not g["ok"]][:4]
+            out.append(dict(kind="spec", clause=chk["clause_core"], detail=f"verified checker checkCleanCore rejects the {what}" + (f"; the result is rejected under `dist <= d` as well ({chk['clause_core_le']})" if tie else "")
                             + (f"; groups failing on their own sub-list: {badg}" if badg else "")))
         elif not indep:
-            badg = [f"{g['group']/S}:{g['clause']}" for g in chk["groups"] if not g["ok"]][:4]
+            badg = [f"{g['group']/SC}:{g['clause']}" for g in chk["groups_core"] if not g["ok"]][:4]
             out.append(dict(kind="spec", clause="groups-affect-each-other", detail=f"verified checker, applied to each group's sub-list, rejects {badg}: {what}"))
-    if o.get("dtypes") and not out:
-        out.append(dict(kind="corr", clause="dtype-differs-from-input", detail=f"float64 columns came back as {o['dtypes']}"))
+        elif not chk["in_order"]:
+            out.append(dict(kind="corr", clause="remaining-not-in-input-order", detail=f"the survivors of a group are not in the order of the input rows (separation, domination and independence hold; the statement is silent about order): {what}"))
+    if not out:
+        narrow = {c: t for c, t in (o.get("dtypes") or {}).items() if np.dtype(t).itemsize < np.dtype((o.get("in_dtypes") or {}).get(c, "float64")).itemsize
+                  or (np.dtype(t).kind in "iu" and np.dtype((o.get("in_dtypes") or {}).get(c, "float64")).kind == "f")}
+        if narrow:
+            out.append(dict(kind="corr", clause="dtype-differs-from-input", detail=f"columns came back in a narrower / integer type than they went in: {narrow} (input {o.get('in_dtypes') or 'float64'})"))
     if not out and kept != model["kept"]:
         if _score_ties(sub) and sorted(kept) != sorted(model["kept"]) and chk is not None and chk.get("ok"):
             pass  # equal scores processed in another order: a different, valid result (accepted by the verified checker)
@@ -1326,6 +1921,14 @@ def _judge_peaks(sub, o, rs):
         elif not chk["ok"]:
             out.append(dict(kind="spec", clause=chk["clause"],
                             detail=f"verified checker checkPeaks rejects the peak table (first rows {o['rows'][:4]}; {len(o['rows'])} peaks for {len(sup)} voxels above the threshold; D={sub['dn']}/{sub['dd']}, thr={sub['thr']}, order={sub['order']}, numbering={sub['numbering']}, list as {sub.get('list_as')}, keywords omitted={bool(sub.get('omit'))})"))
+    if not out and res == "peaks" and o.get("dtypes"):
+        # a returned column NARROWER than what went in (score vs. the score map, angles vs. the angle list) loses digits on some input even
+        # when this one survived: corr (the spec finding is the score / angle mismatch the verified checker reports on a value that needs the digits)
+        ind = o.get("in_dtypes") or {}
+        narrow = {c: t for c, t in o["dtypes"].items() if c in ind and (np.dtype(t).itemsize < np.dtype(ind[c]).itemsize
+                                                                         or (np.dtype(t).kind in "iu" and np.dtype(ind[c]).kind == "f"))}
+        if narrow:
+            out.append(dict(kind="corr", clause="dtype-differs-from-input", detail=f"returned {narrow} for inputs {ind}"))
     if not out:
         if model["result"] != res:
             out.append(dict(kind="corr", clause="result-kind-differs-from-model", detail=f"impl {res} model {model['result']}"))
@@ -1382,11 +1985,12 @@ def stats(case, obs, resps):
         fi = CI[case["feature"]]
         st = {"kind": "clean", "clean.n": _bucket(n, [2, 10, 40, 80, 200, 400]), "clean.groups": len(set(r[fi] for r in case["rows"])),
               "clean.feature": case["feature"], "clean.keep_greater": case["keep_greater"], "clean.layout": case.get("layout", "corpus"),
-              "clean.scores": case.get("scores", "corpus"), "clean.d": _bucket(case["d"] / S, [1, 2, 5, 10, 24]),
+              "clean.scores": case.get("scores", "corpus"), "clean.d": _bucket(case["d"] / case.get("scale", S), [1, 2, 5, 10, 24]), "clean.grid": case.get("grid", "2^-10"),
+              "clean.input_dtypes": {None: "float64", "all": "int64 (all columns)", "coords": "int64 (coordinates, ids) + float64"}[case.get("int_cols")],
               "clean.shifted": any(r[CI["shift_x"]] or r[CI["shift_y"]] or r[CI["shift_z"]] for r in case["rows"]),
               "clean.group_values": case.get("groups", "corpus"), "clean.index": case.get("index_kind", "range"),
               "clean.keywords_omitted": bool(case.get("omit")), "clean.calls_on_same_input": 1 + len(case.get("then") or []),
-              "clean.exact_distance_tie": _rows_tie(case["rows"], case["feature"], case["d"])}
+              "clean.exact_distance_tie": _rows_tie(case["rows"], case["feature"], case["d"], scale=case.get("scale", S))}
         if "error" not in o and o.get("kept") is not None:
             st["clean.removed_fraction"] = _bucket(100 * (n - len(o["kept"])) // max(1, n), [0, 25, 50, 75, 99])
             st["clean.returned_dtypes"] = "float64" if not o.get("dtypes") else str(sorted(set(o["dtypes"].values())))
@@ -1399,7 +2003,10 @@ def stats(case, obs, resps):
           "peaks.order": case["order"], "peaks.numbering": case["numbering"], "peaks.list_as": case.get("list_as"),
           "peaks.threshold": case.get("thr_kind", "corpus"), "peaks.result": o.get("result", "error"), "peaks.field": case.get("field", "corpus"),
           "peaks.flat_box": min(case["dims"]) <= 2, "peaks.keywords_omitted": bool(case.get("omit")),
-          "peaks.calls_on_same_input": 1 + len(case.get("then") or [])}
+          "peaks.calls_on_same_input": 1 + len(case.get("then") or []), "peaks.score_mantissa_bits": case.get("score_bits", "<=24"),
+          "peaks.maps_as": case.get("maps_as", "array"), "peaks.map_dtype": case.get("map_dtype", "float64"), "peaks.angle_map_dtype": case.get("ang_dtype", "float64"),
+          "peaks.list_dtype": case.get("list_dtype", "float64"), "peaks.angle_values": case.get("ang_values", "quarter degrees"),
+          "peaks.three_distinct_sides": len(set(case["dims"])) == 3}
     if o.get("result") == "peaks":
         st["peaks.extracted"] = _bucket(len(o["rows"]), [1, 5, 20, 100, 500])
         st["peaks.suppressed"] = _bucket(nsup - len(o["rows"]), [0, 5, 50, 500])
@@ -1409,11 +2016,13 @@ def stats(case, obs, resps):
 
 def sample_view(case):
     if case["kind"] == "clean":
-        return dict(kind="clean", n=len(case["rows"]), d=case["d"] / S, feature=case["feature"], keep_greater=case["keep_greater"], layout=case.get("layout"),
+        SC = case.get("scale", S)
+        return dict(kind="clean", n=len(case["rows"]), d=case["d"] / SC, grid=case.get("grid", "2^-10"), int_columns=case.get("int_cols"), feature=case["feature"], keep_greater=case["keep_greater"], layout=case.get("layout"),
                     group_values=case.get("groups"), index=case.get("index_kind"), keywords_omitted=case.get("omit"), further_calls=len(case.get("then") or []),
-                    first_rows=[{c: r[CI[c]] / S for c in ("score", case["feature"], "x", "y", "z", "shift_x")} for r in case["rows"][:3]])
+                    first_rows=[{c: r[CI[c]] / SC for c in ("score", case["feature"], "x", "y", "z", "shift_x")} for r in case["rows"][:3]])
     return dict(kind="peaks", dims=case["dims"], thr=case["thr"] / case["sscale"], diameter=case["dn"] / case["dd"], order=case["order"],
                 numbering=case["numbering"], list_rows=len(case["anglist"]), list_as=case.get("list_as"), keywords_omitted=case.get("omit"),
+                maps_as=case.get("maps_as", "array"), score_bits=case.get("score_bits"), dtypes=[case.get("map_dtype"), case.get("ang_dtype"), case.get("list_dtype")],
                 further_calls=len(case.get("then") or []), above_threshold=sum(1 for s in case["scores"] if s > case["thr"]))
 
 
@@ -1484,6 +2093,11 @@ def shrink(case):
             yield dict(case, thr=above[-3] + 1)
     if case.get("list_as") == "csv":
         yield dict(case, list_as="array")
+    if case.get("maps_as", "array") != "array":
+        yield dict(case, maps_as="array")
+    for fld in ("map_dtype", "ang_dtype", "list_dtype"):
+        if case.get(fld, "float64") != "float64" and not (fld == "map_dtype" and case.get("maps_as") == "mrc"):
+            yield dict(case, **{fld: "float64"})
     if case.get("omit"):
         yield dict(case, omit=False)
 
@@ -1534,11 +2148,288 @@ LEVEL_TEXT = ("Lean 4 theorems about an executable model of the greedy suppressi
               "clean_single_group); the clauses decompose over the groups for ANY claimed result (spec_iff_groups); for score/angle maps of any size given as flat "
               "arrays (peaks_above_threshold, peaks_carry, extractPeaks_reads_maps, peaks_separated, peaks_far, peaks_cover, extractPeaks_covers_map, peaks_none_iff, "
               "peakOf_below_numbering); soundness of the checkers run on the implementation's outputs (checkClean_sound incl. Remaining and no-duplicate, "
-              "checkCleanLe_sound for lists with an exact-distance tie, checkIndependent_sound for the per-group verdicts, checkPeaks_sound). The model is tied to the "
-              "source by regenerated operators / directions / offsets / column permutations / signature defaults / normalised whole-body digests of the six functions "
-              "(28 anchors, rename-insensitive; 9 translator theorems) and by an exact differential run of the real functions against the model on generated lists and maps")
+              "checkCleanLe_sound for lists with an exact-distance tie, checkIndependent_sound / checkIndependentLe_sound for the per-group verdicts, checkPeaks_sound) and their "
+              "COMPLETENESS (checkCleanCore_iff, checkClean_iff, checkPeaks_iff: accepted exactly when the clause Props hold; checkClean_accepts_model, checkPeaks_accepts_model: "
+              "the model's own output passes, so a correct result cannot raise a false alarm). The model is tied to the "
+              "source by regenerated operators / directions / offsets / column permutations / signature defaults / normalised whole-body digests of twelve functions "
+              "(37 anchors incl. cryomap.read's array / file branches and 12 whole bodies, insensitive to renames, type hints, message texts and swaps of independent assignments; "
+              "22 translator theorems, one per body) and by an exact differential run of the real functions against the model on generated lists and maps")
 LEVEL_NOTE = ("trusted: Lean kernel; translator anchors; integer scaling of dyadic inputs; squared-distance form of the comparisons (d > 0); "
               "KD-tree ball query = brute force (probed); numpy exact on the grid. Not modelled: dist_mask, cluster_size, n_particles, sigma/triangle thresholds, "
               "symmetry randomisation, tomo_mask, file output")
 TECHNIQUE = "Lean 4 proof (fold invariants of a greedy rule, list/permutation lemmas, index arithmetic) + regenerated operators, defaults and body digests + verified checkers on the implementation's output + exact differential correspondence"
 DESIGN_REF = "DESIGN.md section 4, C07; Appendix A.1"
+
+
+# ------------------------------------------------------------------ documented bodies
+# The normalised dumps of the functions the statement runs through, as documented when the check was last agreed with the source
+# (python harness/props/c07.py --bodies prints them from the current tree; Props/C07.lean holds their digests as theorems).
+DOC_BODIES = {
+    'cryocat/cryomotl.py:Motl.clean_by_distance': [
+        "Def (self,distance_in_voxels,feature_id,metric_id='score',keep_greater=True,dist_mask=None)",
+        '.Assign v0=distance_in_voxels',
+        '.If dist_maskisnotNone',
+        '..Assign v1=nnana.get_nn_stats_within_radius(self,nn_radius=v0,feature=feature_id)',
+        '..Assign v2=nnana.filter_nn_radial_stats(v1,dist_mask)',
+        '.Assign v3=np.unique(self.get_feature(feature_id))',
+        '.Assign v4=pd.DataFrame()',
+        '.For v5 in v3',
+        '..Assign v6=self.get_motl_subset(v5,feature_id=feature_id,reset_index=True)',
+        '..Assign v7=v6.df.shape[0]',
+        '..Assign v8=v6.df[metric_id].values',
+        '..Assign v9=v6.get_coordinates()',
+        '..If keep_greater',
+        '...Assign v10=np.argsort(v8)[::-1]',
+        '..Else',
+        '...Assign v10=np.argsort(v8)',
+        '..Assign v11=np.ones((v7,),dtype=bool)',
+        '..For v12 in v10',
+        '...If v11[v12]',
+        '....If dist_maskisNone',
+        '.....Assign v13=geom.point_pairwise_dist(v9[v12,:],v9)',
+        '.....Assign v14=v13<v0',
+        '.....Assign v14[v12]=False',
+        '....Else',
+        '.....Assign v14=np.arange(v6.df.shape[0])',
+        ".....Assign v15=v6.df.loc[v12,'subtomo_id']",
+        ".....Assign v16=v2.loc[v2['qp_subtomo_id']==v15,'nn_motl_idx'].values",
+        '.....Assign v14=np.isin(v14,v16)',
+        '....Assign v11[v14]=False',
+        '..Assign v4=pd.concat((v4,v6.df.iloc[v11,:]),ignore_index=True)',
+        ".Expr print('MSG')",
+        '.Assign self.df=v4',
+    ],
+    'cryocat/cryomotl.py:Motl.get_motl_subset': [
+        "Def (self,feature_values,feature_id='tomo_id',return_df=False,reset_index=True)",
+        '.Assign feature_values=np.atleast_1d(np.asarray(feature_values))',
+        '.Assign v0=Motl.create_empty_motl_df()',
+        '.For v1 in feature_values',
+        '..Assign v2=self.df.loc[self.df[feature_id]==v1].copy()',
+        '..Assign v0=pd.concat([v0,v2])',
+        '.If reset_index',
+        '..Assign v0=v0.reset_index(drop=True)',
+        '.If return_df',
+        '..Return returnv0',
+        '.Else',
+        '..Return returnMotl(motl_df=v0)',
+    ],
+    'cryocat/cryomotl.py:Motl.get_coordinates': [
+        'Def (self,tomo_number=None)',
+        '.If tomo_numberisNone',
+        "..Assign v0=self.df.loc[:,['x','y','z']].values+self.df.loc[:,['shift_x','shift_y','shift_z']].values",
+        '.Else',
+        "..Assign v0=self.df.loc[self.df.loc[:,'tomo_id']==tomo_number,['x','y','z']].values+self.df.loc[self.df.loc[:,'tomo_id']==tomo_number,['shift_x','shift_y','shift_z']].values",
+        '.Return returnv0',
+    ],
+    'cryocat/geom.py:point_pairwise_dist': [
+        'Def (coord_1,coord_2)',
+        '.If coord_1.shape[0]==1andcoord_2.shape[0]!=1',
+        '..Assign coord_1=np.tile(coord_1,(coord_2.shape[0],1))',
+        '.Assign coord_1=np.atleast_2d(coord_1)',
+        '.Assign coord_2=np.atleast_2d(coord_2)',
+        '.Assign v0=np.linalg.norm(coord_1-coord_2,axis=1)',
+        '.Assign v0=np.where(isinstance(v0,complex),0.0,v0)',
+        '.Return returnv0',
+    ],
+    'cryocat/tmana.py:scores_extract_particles': [
+        "Def (scores_map,angles_map,angles_list,tomo_id,particle_diameter,object_id=None,scores_threshold=None,sigma_threshold=None,cluster_size=None,n_particles=None,output_path=None,output_type='emmotl',angles_order='zxz',symmetry='c1',angles_numbering=0,tomo_mask=None)",
+        ".If symmetry.lower().startswith('c')",
+        "..Assign symmetry=int(re.findall('\\\\d+',symmetry)[-1])",
+        '.Else',
+        "..Expr warnings.warn('MSG')",
+        '..Assign symmetry=1',
+        '.Assign scores_map=cryomap.read(scores_map)',
+        '.Assign angles_map=cryomap.read(angles_map)',
+        '.Assign v0=ioutils.rot_angles_load(angles_list,angles_order=angles_order)',
+        '.If tomo_maskisnotNone',
+        '..Assign tomo_mask=cryomap.read(tomo_mask)',
+        '..Assign scores_map=scores_map*tomo_mask',
+        '.If object_idisNone',
+        '..Assign object_id=1',
+        '.If scores_thresholdisnotNone',
+        '..Assign v1=scores_threshold',
+        '.Else',
+        '..If sigma_thresholdisNone',
+        '...Assign v1=compute_scores_map_threshold_triangle(scores_map)',
+        '..Else',
+        '...Assign v2=scores_map.mean()',
+        '...Assign v3=scores_map.std(ddof=1)',
+        '...Assign v1=v2+sigma_threshold*v3',
+        '.Assign v4=np.where(scores_map>v1)',
+        '.Assign v5=len(v4[0])',
+        '.If v5==0',
+        '..Return returnNone',
+        '.Assign v6=[]',
+        '.Assign v5=min(v5,len(scores_map[v4]))-1',
+        '.Assign v7=np.argpartition(-scores_map[v4],v5)[:v5+1]',
+        '.Assign v7=v7[np.argsort(-scores_map[v4][v7])]',
+        '.Assign v8=np.array([v4[0][v7],v4[1][v7],v4[2][v7]])',
+        '.Assign v9=sorted(zip(v8.T,scores_map[v8[0],v8[1],v8[2]]),key=lambda_a0:_a0[1],reverse=True)',
+        '.Assign v10=KDTree([_c1_0for_c1_0,_inv9])',
+        '.Assign v11={tuple(_c1_0):_c1_1for_c1_0,_c1_1inv9}',
+        '.Assign v12=set(v11.keys())',
+        '.For (v13,v14) in v9',
+        '..If tuple(v13)notinv12',
+        '...Continue continue',
+        '..Expr v6.append((v13,v14))',
+        '..Assign v15=v10.query_ball_point(v13,particle_diameter)',
+        '..For v16 in v15',
+        '...Assign v17=tuple(v9[v16][0])',
+        '...If v17inv12andv11[v17]<=v14',
+        '....Expr v12.remove(v17)',
+        '.Assign v6,v18=zip(*v6)',
+        '.Assign v19=DBSCAN(eps=particle_diameter/2,min_samples=1)',
+        '.Assign v6=np.array(v6)',
+        '.Assign v18=np.array(v18)',
+        '.Assign v20=v19.fit_predict(v6)',
+        '.Assign v21=0',
+        '.Assign v22=np.zeros(len(v6),dtype=bool)',
+        '.For v23 in np.unique(v20)',
+        '..If v23==-1',
+        '...Continue continue',
+        '..If cluster_sizeisnotNone',
+        '...Assign v24=np.sum(v20==v23)',
+        '...If v24<cluster_size',
+        '....Continue continue',
+        '..Assign v22[v20==v23]=True',
+        '..AugAssign v21+=np.sum(v20==v23)',
+        '.Assign v25=v6[v22]',
+        '.If n_particlesisnotNone',
+        '..Assign v25=v25[0:min(v25.shape[0],n_particles),:]',
+        '..Assign v18=v18[0:min(v25.shape[0],n_particles)]',
+        '.Assign v26=angles_map[v25[:,0],v25[:,1],v25[:,2]].astype(int)-angles_numbering',
+        '.Assign v27=v0[v26,0]',
+        '.Assign v28=v0[v26,1]',
+        '.Assign v29=v0[v26,2]',
+        '.If symmetry>1',
+        '..Assign v30=np.linspace(0,360,symmetry+1)',
+        '..Assign v30=v30[:-1]',
+        '..Assign v27=v27+np.random.choice(v30,size=v27.shape[0])',
+        ".Expr print('MSG')",
+        '.Assign v31=cryomotl.Motl()',
+        ".Expr v31.fill({'x':v25[:,0]+1,'y':v25[:,1]+1,'z':v25[:,2]+1,'score':v18,'class':1,'tomo_id':tomo_id,'object_id':object_id,'phi':v27,'theta':v28,'psi':v29,'subtomo_id':np.arange(1,v25.shape[0]+1)})",
+        '.Delete delv8,v9',
+        '.Expr gc.collect()',
+        '.If output_pathisnotNone',
+        "..If output_type=='emmotl'",
+        '...Expr v31.write_out(output_path)',
+        '..Else',
+        "...If output_type=='stopgap'",
+        '....Assign v32=cryomotl.StopgapMotl(v31.df)',
+        '....Expr v32.write_out(output_path=output_path)',
+        '...Else',
+        "....If output_type=='relion'",
+        '.....Assign v33=cryomotl.RelionMotl(v31.df)',
+        '.....Expr v33.write_out(output_path=output_path)',
+        '....Else',
+        ".....Raise raiseValueError('MSG')",
+        '.Return returnv31',
+    ],
+    'cryocat/ioutils.py:rot_angles_load': [
+        "Def (input_angles,angles_order='zxz')",
+        '.If isinstance(input_angles,str)',
+        '..If notos.path.exists(input_angles)',
+        "...Raise raiseValueError('MSG')",
+        '..Assign v0=pd.read_csv(input_angles,header=None)',
+        '..If len(v0.columns)!=3',
+        "...Raise raiseValueError('MSG')",
+        "..If angles_order=='zzx'",
+        "...Assign v0.columns=['phi','psi','theta']",
+        '..Else',
+        "...Assign v0.columns=['phi','theta','psi']",
+        "..Assign v0=v0.loc[:,['phi','theta','psi']].to_numpy()",
+        '.Else',
+        '..If isinstance(input_angles,np.ndarray)',
+        '...Assign v0=input_angles.copy()',
+        "...If angles_order=='zzx'",
+        '....Assign v0=v0[:,[0,2,1]]',
+        '..Else',
+        "...Raise raiseValueError('MSG')",
+        '.Return returnv0',
+    ],
+    'cryocat/cryomap.py:read': [
+        'Def (input_map,transpose=True,data_type=None)',
+        '.If isinstance(input_map,str)',
+        '..FunctionDef v0(_f0)',
+        "...Assign _f1='\\\\.(mrc|ali|rec|st)(\\\\.\\\\d+)?$'",
+        '...Return returnbool(re.search(_f1,_f0))',
+        '..If v0(input_map)',
+        '...Assign v1=mrcfile.open(input_map).data',
+        '..Else',
+        "...If input_map.endswith('.em')",
+        '....Assign v1=emfile.read(input_map)[1]',
+        '...Else',
+        "....Raise raiseValueError('MSG',input_map,'MSG')",
+        '..If transpose',
+        '...Assign v1=v1.transpose(2,1,0)',
+        '.Else',
+        '..If isinstance(input_map,np.ndarray)',
+        '...Assign v1=np.array(input_map)',
+        '..Else',
+        "...Raise raiseValueError('MSG')",
+        '.Assign v1=np.array(v1,copy=True)',
+        '.If data_typeisnotNone',
+        '..Assign v1=v1.astype(data_type)',
+        '.Return returnv1',
+    ],
+    'cryocat/cryomotl.py:Motl.__init__': [
+        'Def (self,motl_df=None)',
+        '.If motl_dfisnotNone',
+        '..If self.check_df_correct_format(motl_df)',
+        '...Assign self.df=motl_df',
+        '..Else',
+        "...Raise raiseValueError('MSG')",
+        '.Else',
+        '..Assign self.df=Motl.create_empty_motl_df()',
+    ],
+    'cryocat/cryomotl.py:Motl.check_df_correct_format': [
+        'Def (input_df)',
+        '.If sorted(Motl.motl_columns)==sorted(input_df.columns)',
+        '..Return returnTrue',
+        '.Else',
+        '..Return returnFalse',
+    ],
+    'cryocat/cryomotl.py:Motl.fill': [
+        'Def (self,input_dict)',
+        '.For (v0,v1) in input_dict.items()',
+        '..If v0inself.df.columns',
+        '...Assign self.df[v0]=v1',
+        '..Else',
+        "...If v0=='coord'",
+        "....Assign self.df[['x','y','z']]=v1",
+        '...Else',
+        "....If v0=='angles'",
+        ".....Assign self.df[['phi','theta','psi']]=v1",
+        '....Else',
+        ".....If v0=='shifts'",
+        "......Assign self.df[['shift_x','shift_y','shift_z']]=v1",
+        '.Assign self.df=self.df.fillna(0.0)',
+    ],
+    'cryocat/cryomotl.py:Motl.get_feature': [
+        'Def (self,feature_id)',
+        '.If isinstance(feature_id,str)',
+        '..Assign feature_id=[feature_id]',
+        '.Assign v0=set(feature_id)-set(self.df.columns)',
+        '.If v0',
+        "..Raise raiseUserInputError('MSG')",
+        '.Return returnself.df[feature_id].values',
+    ],
+    'cryocat/cryomotl.py:Motl.create_empty_motl_df': [
+        'Def ()',
+        '.Assign v0=pd.DataFrame(columns=Motl.motl_columns,dtype=float)',
+        '.Assign v0=v0.fillna(0.0)',
+        '.Return returnv0',
+    ],
+}
+
+if __name__ == "__main__":
+    import sys, json
+    if "--bodies" in sys.argv:
+        DOC_BODIES.clear()
+        src_ = core.Source(core.REPO)
+        translate(src_)
+        out_ = {}
+        for a_ in src_.anchors:
+            if a_["name"].startswith("body:"):
+                out_[a_["name"][5:]] = a_["value"]
+        print(json.dumps(out_, indent=0))
